@@ -8,6 +8,9 @@
  *   audio <path> <skip_bytes> <start_sample> <n_samples>      (int16 mono)
  *   mode stream|full|nosearch|nogrow
  *   chunk <n_samples>
+ *   chunkseq <SIZE>x<COUNT> ...    runs of chunk sizes used first (COUNT calls of SIZE samples each), then `chunk`
+ *   utt <path> <skip_bytes> <start_sample> <n_samples>   a further utterance decoded on the SAME decoder after the
+ *                                  first one WITHOUT setting the text/grammar again; alignment requested (tag u<k>final)
  *   partial <k> ...                request an alignment after chunk k (0-based) of the streaming modes
  *   early 1                        also request an alignment right after decoder_start_utt
  *   run
@@ -17,6 +20,8 @@
  *   FP   first-pass segmentation (decoder_seg_iter) incl. non-dictionary segments
  *   D/LD/LR/IN/RS   dictionary pronunciations and the dict2pid context tables of the words involved
  *   A    result of decoder_alignment (null | ok), REUSE = result of calling it a second time
+ *   X    per phone: the senones it must have in its context by DIRECT model-definition lookup
+ *        (bin_mdef_phone_id_nearest + pid2ssid + sseq; not through dict2pid) = input expSen of alignOKB
  *   W/P/S   the alignment through the flat iterators (alignment_words/phones/states + iter_seg + iter_name)
  *   CW/CP   the alignment through alignment_iter_children (index lists)
  *   SF/EF   the window arrays of the search, FINAL and TOK = the token stack (state_align_search.h)
